@@ -253,6 +253,7 @@ package ociclient
 //@ immutable blobWriter.chunkSize, blobWriter.client, blobWriter.ctx
 //@ func (*blobWriter).flush
 //@   holds w.mu
+//@   ensures[callers-buffer-untouched] untouched(buf)
 //@   private resp, req, w
 //@   modifies ociclient.blobWriter.flushed, ociclient.blobWriter.chunk, ociclient.blobWriter.location, url.URL, http.Request, map:http.Header
 //@   ensures[nothing-outstanding-nothing-sent] commitDigest == "" && len(buf) + old(len(w.chunk)) == 0 ==>
@@ -271,6 +272,8 @@ package ociclient
 
 //@ func (*blobWriter).Write
 //@   private w
+// (the caller's buffer is only read: nothing is appended onto a shortened view of it)
+//@   ensures[callers-buffer-untouched] untouched(buf) && string(buf) == old(string(buf))
 //@   ensures[accepted-bytes-are-counted-once] result.1 == nil ==> result.0 == len(buf) && w.size == old(w.size) + len(buf)
 //@   ensures[refused-write-changes-nothing] result.1 != nil ==> result.0 == 0 && w.size == old(w.size) && w.flushed == old(w.flushed) &&
 //@     string(w.chunk) == old(string(w.chunk))
